@@ -121,6 +121,12 @@ func main() {
 		cleanup(e)
 		os.Exit(code)
 	case "selftest":
+		if len(os.Args) >= 3 && os.Args[2] == "racesense" {
+			e := newEnv()
+			code := driver.SelfTestRaceSense(e)
+			cleanup(e)
+			os.Exit(code)
+		}
 		if len(os.Args) < 3 || os.Args[2] != "determinism" {
 			usage()
 		}
